@@ -11,7 +11,7 @@ for ac, nus in ((1, 1), (2, 1), (2, 2), (3, 2)):
     ob(f"VSsetfields_ac{ac}_u{nus}", ["C07", "C20"], entry="h_VSsetfields_new", enforce="VSsetfields", mode="bounded",
        bound=f"{ac} requested field(s), {nus} user-defined symbol(s) + the 9 predefined ones, names <= 2 characters",
        overflow=True, unwind=11, cex_unwind=14, defines=["H4V_SMALL_STR", "NMLEN=2", f"SF_AC={ac}", f"SF_NUSYM={nus}"],
-       timeout=200, tier="quick" if ac < 3 else "thorough", **VSF)
+       timeout=200 if ac < 3 else 1200, tier="quick" if ac < 3 else "thorough", **VSF)
 # scenario "user-defined fields only" (the predefined-field path is not reached): separates the two size-check paths
 ob("VSsetfields_ac2_u2_user", ["C07", "C20"], entry="h_VSsetfields_new", enforce="VSsetfields", mode="bounded",
    bound="2 requested fields, both user-defined; 2 user symbols, names <= 2 characters", overflow=True, unwind=11, cex_unwind=14,
